@@ -252,6 +252,17 @@ pub const ITEMS: &[Item] = &[
     CanonicalBody { ty: "Range", tr: "Deserialize<'de>", name: "deserialize", body: "{lets=String::deserialize(d)?;s.parse().map_err(serde::de::Error::custom)}" },
     // ---- error positions
     CanonicalBody { ty: "SemverError", tr: "", name: "offset", body: "{self.span.offset()}" },
+    // ---- accessors and the miette glue of the error type: what is handed to miette is the input, one label at the span,
+    //      and whatever the kind's derived Diagnostic says
+    CanonicalBody { ty: "SemverError", tr: "", name: "input", body: "{&self.input}" },
+    CanonicalBody { ty: "SemverError", tr: "", name: "span", body: "{&self.span}" },
+    CanonicalBody { ty: "SemverError", tr: "", name: "kind", body: "{&self.kind}" },
+    CanonicalBody { ty: "SemverError", tr: "Diagnostic", name: "code", body: "{self.kind().code()}" },
+    CanonicalBody { ty: "SemverError", tr: "Diagnostic", name: "severity", body: "{self.kind().severity()}" },
+    CanonicalBody { ty: "SemverError", tr: "Diagnostic", name: "help", body: "{self.kind().help()}" },
+    CanonicalBody { ty: "SemverError", tr: "Diagnostic", name: "url", body: "{self.kind().url()}" },
+    CanonicalBody { ty: "SemverError", tr: "Diagnostic", name: "source_code", body: "{Some(&self.input)}" },
+    CanonicalBody { ty: "SemverError", tr: "Diagnostic", name: "labels", body: "{Some(Box::new(std::iter::once(miette::LabeledSpan::new_with_span(Some(\"here\".into()),*self.span()),)))}" },
     Method { ty: "SemverError", tr: "", name: "location" },
     // ---- the public entry points
     Method { ty: "Version", tr: "", name: "parse" },
@@ -265,9 +276,6 @@ pub const ITEMS: &[Item] = &[
 /// here is reported as new.
 pub const BY_CORRESPONDENCE_ONLY: &[&str] = &[
     // error plumbing and diagnostics
-    "SemverError::code", "SemverError::severity", "SemverError::help", "SemverError::url",
-    "SemverError::source_code", "SemverError::labels", "SemverError::input", "SemverError::span",
-    "SemverError::kind",
     // entry points that wrap the winnow parsers, serde, FromStr
     "Version::partial_cmp",
     "Bound::partial_cmp",
